@@ -46,7 +46,8 @@ pub static HOLDER_DOC: Lazy<CoreDocument> = Lazy::new(|| doc_with_key("did:examp
 
 pub const CRED_HEADER: &str = r#"{"alg":"EdDSA","typ":"JWT","kid":"did:example:123#k"}"#;
 pub const PRES_HEADER: &str = r#"{"alg":"EdDSA","typ":"JWT","kid":"did:example:holder#k"}"#;
-pub const KB_HEADER: &str = r#"{"alg":"EdDSA","typ":"kb+jwt","kid":"did:example:holder#k"}"#;
+/// (sd-jwt-payload 0.2 compares `typ` with its own constant, which is `" kb+jwt"` with a leading blank)
+pub static KB_HEADER_S: Lazy<String> = Lazy::new(|| format!(r#"{{"alg":"EdDSA","typ":"{}","kid":"did:example:holder#k"}}"#, KeyBindingJwtClaims::KB_JWT_HEADER_TYP));
 
 pub static CRED_CLAIMS: Lazy<String> = Lazy::new(|| Credential::<Object>::from_json(crate::json::SEED_CREDENTIAL).expect("seed credential").serialize_jwt(None).expect("serialize_jwt"));
 pub static CRED_JWT: Lazy<String> = Lazy::new(|| compact_ed(CRED_HEADER, CRED_CLAIMS.as_bytes(), &ISSUER_KEY));
@@ -84,7 +85,7 @@ pub fn kb_claims(nonce: &str, aud: &str, iat: i64) -> String {
   c.to_json().expect("kb claims")
 }
 pub static SD_JWT: Lazy<String> = Lazy::new(|| {
-  let kb = kb_jwt(&kb_claims(KB_NONCE, KB_AUD, KB_IAT), KB_HEADER, &HOLDER_KEY);
+  let kb = kb_jwt(&kb_claims(KB_NONCE, KB_AUD, KB_IAT), &KB_HEADER_S, &HOLDER_KEY);
   format!("{}~{}~{}", SD_PARTS.0, SD_PARTS.1.join("~"), kb)
 });
 
@@ -461,6 +462,9 @@ fn e_kb_validate(s: &str) -> Out {
         bb((c.iat, c.aud.len(), c.nonce.len(), c.sd_hash.len(), c.to_json().is_ok()));
       }
       Err(e) => {
+        if std::env::var_os("C05_TRACE").is_some() {
+          eprintln!("  kb error: {e}");
+        }
         bb(e.to_string().len());
       }
     }
@@ -755,12 +759,12 @@ pub fn generate(ctx: &Ctx) {
   let base = format!("{}~{}~", SD_PARTS.0, SD_PARTS.1.join("~"));
   let mut inputs: Vec<String> = Vec::new();
   let mut kb_variants: Vec<String> = vec![
-    kb_jwt(&good_claims, KB_HEADER, &HOLDER_KEY),
-    kb_jwt(&good_claims, KB_HEADER, &OTHER_KEY),  // wrong signature (S7)
-    kb_jwt(&good_claims, KB_HEADER, &ISSUER_KEY), // signed by the issuer
+    kb_jwt(&good_claims, &KB_HEADER_S, &HOLDER_KEY),
+    kb_jwt(&good_claims, &KB_HEADER_S, &OTHER_KEY),  // wrong signature (S7)
+    kb_jwt(&good_claims, &KB_HEADER_S, &ISSUER_KEY), // signed by the issuer
   ];
   for (nonce, aud, iat) in [("other", KB_AUD, KB_IAT), (KB_NONCE, "other", KB_IAT), (KB_NONCE, KB_AUD, vx::fx::NOW + 1000), (KB_NONCE, KB_AUD, -1), (KB_NONCE, KB_AUD, i64::MAX), (KB_NONCE, KB_AUD, i64::MIN), (KB_NONCE, KB_AUD, 253402300800), (KB_NONCE, KB_AUD, -62167219201), ("", "", 0)] {
-    kb_variants.push(kb_jwt(&kb_claims(nonce, aud, iat), KB_HEADER, &HOLDER_KEY));
+    kb_variants.push(kb_jwt(&kb_claims(nonce, aud, iat), &KB_HEADER_S, &HOLDER_KEY));
   }
   for header in [
     r#"{"alg":"EdDSA","typ":"JWT","kid":"did:example:holder#k"}"#,
@@ -778,14 +782,17 @@ pub fn generate(ctx: &Ctx) {
     r#"{"alg":"EdDSA","typ":"kb+jwt","kid":"did:example:holder#k","crit":["zzz"]}"#,
     r#"{"alg":"EdDSA","typ":"kb+jwt","kid":"did:example:holder#k","nonce":"n"}"#,
   ] {
-    kb_variants.push(kb_jwt(&good_claims, header, &HOLDER_KEY));
-    kb_variants.push(kb_jwt(&good_claims, header, &OTHER_KEY));
+    let header = header.replace("\"typ\":\"kb+jwt\"", &format!("\"typ\":\"{}\"", KeyBindingJwtClaims::KB_JWT_HEADER_TYP));
+    kb_variants.push(kb_jwt(&good_claims, &header, &HOLDER_KEY));
+    kb_variants.push(kb_jwt(&good_claims, &header, &OTHER_KEY));
   }
+  // the literal spelling of the specification ("kb+jwt" without the blank)
+  kb_variants.push(kb_jwt(&good_claims, r#"{"alg":"EdDSA","typ":"kb+jwt","kid":"did:example:holder#k"}"#, &HOLDER_KEY));
   // claims with a wrong digest / missing members / wrong types, correctly signed
-  kb_variants.extend(tree_space(&good_claims, |c| kb_jwt(c, KB_HEADER, &HOLDER_KEY)));
+  kb_variants.extend(tree_space(&good_claims, |c| kb_jwt(c, &KB_HEADER_S, &HOLDER_KEY)));
   // the same mutated claims signed by the wrong key
-  kb_variants.extend(tree_space(&good_claims, |c| kb_jwt(c, KB_HEADER, &OTHER_KEY)));
-  kb_variants.extend(tree_space(KB_HEADER, |h| kb_jwt(&good_claims, h, &HOLDER_KEY)));
+  kb_variants.extend(tree_space(&good_claims, |c| kb_jwt(c, &KB_HEADER_S, &OTHER_KEY)));
+  kb_variants.extend(tree_space(&KB_HEADER_S, |h| kb_jwt(&good_claims, h, &HOLDER_KEY)));
   // signature segment surgery on the good KB-JWT
   let good_kb = kb_variants[0].clone();
   let (hp, sig) = good_kb.rsplit_once('.').unwrap();
